@@ -151,6 +151,8 @@ FrameChecks(ev, f, a, pre, post, ctx, x, obs, tlo, thi) ==
   /\ Chk("C10", "ias", IsCommB(f) => AdmIas(pre, post.ias, f, ctx, adv), ev, "bds60")
   /\ Chk("C10", "mach", IsCommB(f) => AdmMach(pre, post.mach, f, ctx, adv), ev, "bds60")
   /\ Chk("C10", "vrate", IsCommB(f) => AdmVr(pre, post.vr, f, ctx, adv), ev, "bds60")
+  \* the gate rests on the recorded transponder capability: it changes with DF11 / DF17 only
+  /\ Chk("C10", "capability.source", AdmCa(pre, post.ca, f, ctx), ev, "ca")
   /\ Mark("C10", IsCommB(f) /\ (Must40(pre, f, ctx) \/ Must50(pre, f, ctx) \/ Must60(pre, f, ctx)
                                 \/ Must17(pre, f, ctx) \/ Must20(pre, f, ctx)
                                 \/ (~Gate(pre, ctx) /\ (Valid40S(f) \/ Valid50S(f) \/ Valid60S(f)))), ev)
@@ -325,6 +327,9 @@ PairChecks(ev, t1) ==
        \* single run (slot 1) give the same table - state hidden inside the reader thread would break this
        /\ Chk("C11", "segmentation", kind = "seg" => TablesEqual(st.tbl[0], t1, NoStamps), ev, "seg")
        /\ Chk("C03", "segmentation", kind = "seg3" => TablesEqual(st.tbl[0], t1, NoStamps), ev, "seg")
+       \* C02: what a line does depends on its digits only - not on the line before it (repeated frames, decorated copies)
+       /\ Chk("C02", "segmentation", kind = "seg2" => TablesEqual(st.tbl[0], t1, NoStamps), ev, "seg")
+       /\ Mark("C02", kind = "seg2", ev)
        /\ Mark("C03", kind = "seg3", ev)
        \* C09: the same velocity values under every option set, also for "no information" frames
        /\ Chk("C09", "option.neutral", kind = "c09u" => TablesEqual(t0, t1, LAMBDA r : <<r.gs, r.trk, r.vr>>), ev, "U")
@@ -569,6 +574,9 @@ RunStep(ev) ==
       ok ==
         /\ (IF sane THEN TRUE ELSE PrintT(<<"TOOLERR", "table out of sync", ev.i>>))
         /\ Chk("C01", "completed", ev.ok, ev, ev.outk)
+        \* a reader run that panics, hangs or takes the process down decides nothing else: whatever property is being
+        \* checked fails on this input (its lines were not all processed)
+        /\ (IF Prop \in {"ALL", "DRIFT", "C01"} THEN TRUE ELSE Chk(Prop, "run.completed", ev.ok, ev, ev.outk))
         /\ Chk("C01", "later.processed", (ev.ok /\ sane /\ Len(ai) <= 11) =>
                    {lis[ai[j]].a : j \in 1..Len(ai)} \subseteq ToSet(ev.k1), ev, "sentinel")
         /\ Mark("C01", TRUE, ev)
